@@ -198,8 +198,15 @@ func verifDecimal(minDigits, maxDigits int, max uint64) uint64 {
 
 func verifYieldNative() { time.Sleep(time.Microsecond) }
 
+// verifYield: a scheduling point inside harness callbacks (natively: a tiny sleep).
+func verifYield() { verifYieldNative() }
+
 // verifQuiesce: under schedule exploration the caller waits until no other
 // goroutine can run and gets the number of goroutines that have not ended
 // (the goroutine census); natively goroutines get a moment to wind down and
 // the census is not taken (0).
 func verifQuiesce() int { time.Sleep(30 * time.Millisecond); return 0 }
+
+// verifStepBegin marks the end of the pre-state construction (the engine's
+// state-field audit starts counting here); no effect natively.
+func verifStepBegin() {}
